@@ -66,6 +66,11 @@ def run_sequence(rebound, sp):
             for k in ("r_crit_hill",):
                 if k in opts:
                     setattr(sim.ri_trace, k, opts[k])
+        elif integ == "whfast512":
+            sim.exact_finish_time = 0          # required by the integrator (it says so)
+            for k in ("N_systems", "gr_potential"):
+                if k in opts:
+                    setattr(sim.ri_whfast512, k, opts[k])
         sim.ri_whfast._timestep_warning = 1
 
     def callbacks(sim):
@@ -87,7 +92,15 @@ def run_sequence(rebound, sp):
     sim.t = sp.get("t0", 0.0)
     sim.dt = sp["dt"]
     integ, coord, opts = sp["integ"], sp["coord"], sp["opts"]
-    configure(sim, integ, coord, opts)
+    if sp.get("spelling"):
+        sim.integrator = sp["spelling"]            # a public Python spelling (shortcut / composite name), nothing else configured
+        sim.ri_whfast._timestep_warning = 1
+    else:
+        configure(sim, integ, coord, opts)
+    if sp.get("debug_operator_kepler") is not None:
+        f_ = clib.reb_integrator_whfast_debug_operator_kepler
+        f_.argtypes = [ctypes.c_void_p, ctypes.c_double]
+        f_.restype = None
     if sp.get("var") is not None:
         v = sim.add_variation()          # WHFast supports full first-order variations only
         for k, val in zip(F6, sp["var"]):
@@ -135,6 +148,10 @@ def run_sequence(rebound, sp):
             if ns > 0:
                 el += (ns - 1) * dt0 + (sim.dt_last_done if eft != 0 else dt0)
                 path += abs((ns - 1) * dt0) + abs(sim.dt_last_done if eft != 0 else dt0)
+        elif kind == "debug_kepler":
+            f_(ctypes.addressof(sim), act[1] * sim.dt)
+            el += act[1] * sim.dt
+            path += abs(act[1] * sim.dt)
         elif kind == "sync":
             sim.synchronize()
         elif kind == "restore":
@@ -581,110 +598,252 @@ SEQ_CONFIGS = [("whfast", "jacobi"), ("whfast", "dh"), ("whfast", "whds"), ("whf
                ("mercurius", "-"), ("trace", "-")]
 
 
-def gen_sequence(rng, idx):
-    """one two-body history: returns (spec for the worker, tags, GM of the exact relative orbit, orbit meta)"""
-    tags = set()
-    integ, coord = SEQ_CONFIGS[idx % len(SEQ_CONFIGS)]
-    while True:
-        o = gen_orbit(rng)
-        e = o["meta"]["e"]
-        x = 2 * math.pi * abs(o["meta"]["dtP"])
-        if e > 1 and x / (e - 1) > 30.0:
-            continue                                    # F14 domain (several sub-steps of up to 3.4 dt)
-        if integ == "trace" and x * abs(1 - e) ** -1.5 > 0.05:
+# ---------------------------------------------------------------------------- pairwise factors of the histories
+CFG_NAMES = ["whfast/jacobi", "whfast/dh", "whfast/whds", "whfast/bary", "saba", "mercurius", "trace"]
+EVENTS = ["none", "sync", "setdt", "reverse", "edit", "restore_archive", "restore_copy", "restore_pickle", "switch", "switch_reset",
+          "exact_finish_output"]
+FACTORS = {
+    "cfg": CFG_NAMES,
+    "role": ["active:massless", "active:massive", "tp0:massless", "tp0:massive", "tp1:massless", "tp1:massive"],
+    "safe": ["safe1", "safe0", "safe0_keep"],
+    "variant": ["plain", "corrector", "kernel", "kernel_corrector2"],
+    "dtsign": ["+", "-"],
+    "orbit": ["ell_low", "ell_high", "hyp"],
+    "steplen": ["short", "medium", "long"],
+    "pattern": ["steps", "integrate_eft0", "integrate_eft1", "integrate_omitted"],
+    "ev1": EVENTS,          # event after the first segment ...
+    "ev2": EVENTS,          # ... and the event one step later (event adjacency: the pair (ev1, ev2))
+    "callbacks": ["none", "set"],
+    "var": ["none", "riding"],
+    "com": ["origin", "offset_boost"],
+    "t0": ["0", "huge"],
+}
+FNAMES = list(FACTORS)
+EXACT_MASSIVE = ("whfast/jacobi", "whfast/whds", "saba")
+MISUSE_WITH_KEEP = ("setdt", "reverse", "edit", "switch", "switch_reset")
+
+
+def pair_forbidden(f, a, g, b):
+    """combinations the code rejects / documents as misuse / that leave the property's domain; returns the reason or None.
+    All constraints of the history generator are pairwise, so a case is valid iff it contains no forbidden pair."""
+    if FNAMES.index(f) > FNAMES.index(g):
+        f, a, g, b = g, b, f, a
+    if f == "cfg":
+        if g == "safe":
+            if a == "trace" and b != "safe1":
+                return "TRACE has no safe_mode"
+            if a == "mercurius" and b == "safe0_keep":
+                return "MERCURIUS has no keep_unsynchronized"
+        if g == "variant":
+            if b == "corrector" and a not in ("whfast/jacobi", "whfast/bary"):
+                return "correctors: WHFast Jacobi/barycentric only (the code says so)"
+            if b in ("kernel", "kernel_corrector2") and a != "whfast/jacobi":
+                return "non-default kernels: WHFast Jacobi only (the code says so)"
+        if g == "dtsign" and a == "trace" and b == "-":
+            return "TRACE with dt<0: finding F10 (C01/C08)"
+        if g == "steplen" and a == "trace" and b != "short":
+            return "TRACE: longer steps trigger its pericentre switch (not the Kepler path)"
+        if g == "t0" and b == "huge" and a in ("mercurius", "trace"):
+            return "MERCURIUS/TRACE encounter sub-integrations use absolute times (outside the Kepler path)"
+        if g == "var" and b == "riding" and a != "whfast/jacobi":
+            return "variations: WHFast Jacobi only (the code says so)"
+        if g == "role" and b in ("active:massive", "tp1:massive") and a not in EXACT_MASSIVE:
+            return "two-body splitting not exact for a massive non-test body in dh/barycentric schemes"
+        if g in ("ev1", "ev2") and a == "trace" and b == "reverse":
+            return "TRACE with dt<0: finding F10"
+    if f == "role" and g == "var" and b == "riding" and not a.startswith("active"):
+        return "variation next to a test particle: C16 finding F24"
+    if f == "safe":
+        if g in ("ev1", "ev2") and a == "safe0_keep" and b in MISUSE_WITH_KEEP:
+            return "keep_unsynchronized=1: run continues from the unsynchronised state (documented misuse)"
+        if g == "callbacks" and a == "safe0_keep" and b == "set":
+            return "keep_unsynchronized=1 with timestep-modification callbacks: REBOUND warns, wrong by design"
+    if f == "variant" and g == "var" and b == "riding" and a in ("kernel", "kernel_corrector2"):
+        return "variations with non-default kernels are rejected by the code"
+    if f == "orbit" and g == "steplen" and a == "hyp" and b == "long":
+        return "hyperbolic + long step: F14 domain (covered by the solver tie)"
+    if f == "pattern" and g == "t0" and b == "huge" and a != "steps":
+        return "|t|/dt=1e12 with integrate(): elapsed time not representable (t+dt bookkeeping)"
+    if f in ("ev1", "ev2") and g == "t0" and b == "huge" and a in ("exact_finish_output",):
+        return "|t|/dt=1e12 with an exact-finish output call: elapsed time not representable"
+    return None
+
+
+def case_valid(fv):
+    for i, f in enumerate(FNAMES):
+        for g in FNAMES[i + 1:]:
+            if pair_forbidden(f, fv[f], g, fv[g]):
+                return False
+    return True
+
+
+def covering_array(seed=20260930, tries=40):
+    """greedy all-pairs covering array of FACTORS under pair_forbidden (deterministic)"""
+    rng = SplitMix(seed)
+    need = set()
+    excluded = {}
+    for i, f in enumerate(FNAMES):
+        for g in FNAMES[i + 1:]:
+            for a in FACTORS[f]:
+                for b in FACTORS[g]:
+                    why = pair_forbidden(f, a, g, b)
+                    if why:
+                        excluded[(f, a, g, b)] = why
+                    else:
+                        need.add((f, a, g, b))
+    total = len(need)
+
+    def pairs_of(fv):
+        return {(f, fv[f], g, fv[g]) for i, f in enumerate(FNAMES) for g in FNAMES[i + 1:]}
+
+    def candidate(fix):
+        for _ in range(60):
+            fv = {f: rng.choice(FACTORS[f]) for f in FNAMES}
+            fv.update(fix)
+            if case_valid(fv):
+                return fv
+        return None
+    rows = []
+    infeasible = {}
+    pending = sorted(need)
+    while need:
+        target = None
+        for pr in pending:
+            if pr in need:
+                target = pr
+                break
+        best, bestn = None, -1
+        for _ in range(tries):
+            fv = candidate({target[0]: target[1], target[2]: target[3]})
+            if fv is None:
+                continue
+            n = len(pairs_of(fv) & need)
+            if n > bestn:
+                best, bestn = fv, n
+        if best is None:
+            infeasible[target] = "no valid completion"
+            need.discard(target)
             continue
+        rows.append(best)
+        need -= pairs_of(best)
+    return rows, total - len(infeasible), excluded, infeasible
+
+
+def build_history(rng, fv):
+    """a history realising the factor values `fv`; returns (spec, tags, GM, orbit, offk)"""
+    tags = set()
+    cfg = fv["cfg"]
+    integ, coord = (cfg.split("/") + ["-"])[:2] if "/" in cfg else (cfg, "-")
+    lo, hi = {"short": (-3.0, -1.3), "medium": (-1.3, 0.0), "long": (0.0, 1.5)}[fv["steplen"]]
+    for attempt in range(400):
+        if fv["orbit"] == "ell_low":
+            e = rng.uniform(0.0, 0.9) if rng.chance(0.9) else 0.0
+        elif fv["orbit"] == "ell_high":
+            e = 1.0 - 10 ** rng.uniform(-4, -1)
+        else:
+            e = 1.0 + 10 ** rng.uniform(-3, math.log10(20.0))
+        dtp = 10 ** rng.uniform(lo, hi)
+        x = 2 * math.pi * dtp
+        if e > 1 and x / (e - 1) > 8.0:
+            continue                                    # stay clear of the F14 domain (sub-steps of up to 3.4 dt, several steps)
+        if integ == "trace" and x * abs(1 - e) ** -1.5 > 0.05:
+            dtp = 0.05 / (2 * math.pi) * abs(1 - e) ** 1.5 * rng.uniform(0.1, 1.0)
         if integ == "mercurius" and x * abs(1 - e) ** -1.5 > 50.0:
             continue
         break
-    if integ == "trace":
-        o["dt"] = abs(o["dt"]); o["meta"]["dtP"] = abs(o["meta"]["dtP"])      # F10
+    o = gen_orbit(rng, e=e, dt_over_P=dtp * (1 if fv["dtsign"] == "+" else -1))
     dt = o["dt"]
     G, mt = o["G"], o["m"]
-    role = ("active", "tp0", "tp1")[rng.randint(0, 2)]
-    exact_massive = (integ, coord) in (("whfast", "jacobi"), ("whfast", "whds"), ("saba", "-"))
+    role, mass = fv["role"].split(":")
     if role == "tp0":
-        m1 = rng.choice([0.0, mt * 1e-3]); m0 = mt; GM = G * m0
+        m1 = 0.0 if mass == "massless" else mt * 1e-3
+        m0 = mt; GM = G * m0
     else:
-        m1 = rng.choice([0.0, mt * 1e-3, mt * rng.uniform(0.05, 0.5)]) if exact_massive else 0.0
+        m1 = 0.0 if mass == "massless" else rng.choice([mt * 1e-3, mt * rng.uniform(0.05, 0.5)])
         m0 = mt - m1; GM = G * (m0 + m1)
     nactive, tpt = {"active": (-1, 0), "tp0": (1, 0), "tp1": (1, 1)}[role]
-    tags.add("role:" + role + (":massive" if m1 else ":massless"))
-    opts = gen_options(rng, integ, coord, tags)
+
+    def options(integ, coord, variant, safe):
+        o_ = {}
+        sm = {"safe1": (1, 0), "safe0": (0, 0), "safe0_keep": (0, 1)}[safe]
+        if integ == "whfast":
+            o_["safe_mode"], o_["keep_unsynchronized"] = sm
+            if variant == "corrector":
+                o_["corrector"] = rng.choice([3, 5, 7, 11, 17])
+            elif variant in ("kernel", "kernel_corrector2"):
+                o_["kernel"] = rng.choice(["modifiedkick", "composition", "lazy"])
+                if variant == "kernel_corrector2":
+                    o_["corrector"] = 17; o_["corrector2"] = 1
+                elif rng.chance(0.5):
+                    o_["corrector"] = rng.choice([3, 5, 7, 11, 17])
+        elif integ == "saba":
+            o_["type"] = rng.choice(SABA_TYPES)
+            o_["safe_mode"], o_["keep_unsynchronized"] = sm
+        elif integ == "mercurius":
+            o_["safe_mode"] = sm[0]
+            o_["r_crit_hill"] = rng.choice([1.0, 3.0, 5.0]); o_["L"] = rng.choice(MERC_L)
+        elif integ == "trace":
+            o_["r_crit_hill"] = rng.choice([1.0, 3.0, 4.0])
+        return o_
+    opts = options(integ, coord, fv["variant"], fv["safe"])
     sx = math.sqrt(sum(v * v for v in o["st"][:3])); sv = math.sqrt(sum(v * v for v in o["st"][3:]))
-    offk = rng.choice([0.0, rng.uniform(0.1, 2.0)])
+    offk = rng.uniform(0.1, 2.0) if fv["com"] == "offset_boost" else 0.0
     off = [rng.normal() * sx * offk for _ in range(3)] + [rng.normal() * sv * offk for _ in range(3)]
-    if offk:
-        tags.add("geometry:com_offset_and_boost")
     sp = {"G": G, "m0": m0, "bodies": [[m1, o["st"]]], "off": off, "dt": dt, "integ": integ, "coord": coord,
-          "nactive": nactive, "tpt": tpt, "opts": opts, "actions": []}
-    if dt < 0:
-        tags.add("time:dt_negative")
-        if e > 1:
-            tags.add("time:hyperbolic_dt_negative")
-    if abs(o["meta"]["dtP"]) > 1:
-        tags.add("time:step_longer_than_period")
-    if e > 1:
-        tags.add("geometry:hyperbolic")
-    if rng.chance(0.2) and integ in ("whfast", "saba"):
-        # (MERCURIUS / TRACE: any encounter sub-integration works with absolute times, error ~ eps |t|/dt - measured 2e-4)
+          "nactive": nactive, "tpt": tpt, "opts": opts, "actions": [], "factors": fv}
+    if fv["t0"] == "huge":
         sp["t0"] = dt * 1e12 * rng.choice([1, -1])
-        tags.add("time:huge_t_over_dt")
-    if rng.chance(0.3) and opts.get("keep_unsynchronized") != 1:
-        # (pre/post_timestep_modifications force a synchronize + recalculate every step; with keep_unsynchronized=1
-        #  REBOUND warns "recalculating coordinates but pos/vel were not synchronized" and the run is wrong by design)
+    if fv["callbacks"] == "set":
         sp["callbacks"] = True
-        tags.add("callbacks:heartbeat_pre_post_additional_forces")
-    # (variations next to a test particle with N_active=1: C16's known finding F24 - the pair (1,0) enters the
-    #  variational acceleration although the Kepler step handles it; only all-active systems here)
-    if integ == "whfast" and coord == "jacobi" and role == "active" and "kernel" not in opts:
+    if fv["var"] == "riding":
         sp["var"] = [rng.normal() * sx for _ in range(3)] + [rng.normal() * sv for _ in range(3)]
-        tags.add("variational:nonzero_variation_riding_along")
     acts = sp["actions"]
-    nseg = rng.randint(1, 3)
-    for sgi in range(nseg):
-        k = rng.randint(0, 9)
-        if k <= 3 or "t0" in sp:
-            n = rng.randint(1, 4)
-            acts.append(["steps", n])
-            tags.add("time:several_steps" if n > 1 else "time:single_step")
+
+    def segment():
+        if fv["pattern"] == "steps":
+            acts.append(["steps", rng.randint(1, 4)])
         else:
-            eft = rng.choice([0, 1, None])
+            eft = {"integrate_eft0": 0, "integrate_eft1": 1, "integrate_omitted": None}[fv["pattern"]]
             acts.append(["integrate", rng.uniform(0.3, 3.7), eft])
-            tags.add("time:integrate_exact_finish_" + {0: "0", 1: "1", None: "omitted"}[eft])
-            if sgi > 0:
-                tags.add("time:integrate_split_in_calls")
-        if sgi == nseg - 1:
-            break
-        h = rng.randint(0, 7)
-        if opts.get("keep_unsynchronized") == 1 and h >= 2:
-            h = rng.randint(0, 1)       # with keep_unsynchronized the run continues from the unsynchronized state: no edits / dt changes / switches
-        if h == 0:
-            acts.append(["sync"]); tags.add("history:explicit_synchronize")
-        elif h == 1:
-            kind = rng.choice(["archive", "copy", "pickle"])
-            acts.append(["restore", kind]); tags.add("history:restore_" + kind)
-        elif h == 2:
-            i2, c2 = SEQ_CONFIGS[rng.randint(0, 4)] if integ != "trace" else SEQ_CONFIGS[rng.randint(0, 3)]
-            if not exact_massive or m1 == 0.0 or (i2, c2) in (("whfast", "jacobi"), ("whfast", "whds"), ("saba", "-")) or role == "tp0":
-                t2 = set()
-                o2 = gen_options(rng, i2, c2, t2)
-                if "var" in sp and not (i2 == "whfast" and c2 == "jacobi"):
-                    pass
-                else:
-                    if "var" in sp:
-                        o2.pop("kernel", None); o2.pop("corrector2", None)
-                    if sp.get("callbacks") and o2.get("keep_unsynchronized") == 1:
-                        o2["keep_unsynchronized"] = 0
-                        t2.discard("option:keep_unsynchronized")
-                    acts.append(["switch", i2, c2, bool(rng.randint(0, 1)), o2])
-                    tags.add("history:integrator_switch"); tags |= t2
-                    integ, coord, opts = i2, c2, o2
-        elif h == 3 and integ != "trace":
-            acts.append(["setdt", -1.0]); tags.add("time:direction_reversal")
-        elif h == 4:
-            acts.append(["setdt", rng.choice([0.5, 2.0, 0.37])]); tags.add("time:dt_changed_between_calls")
-        elif h == 5:
-            acts.append(["edit", [rng.normal() * sv * 0.05 for _ in range(3)]]); tags.add("history:user_edit_between_steps")
+
+    def event(ev):
+        nonlocal integ, coord
+        if ev == "none":
+            return
+        if ev == "sync":
+            acts.append(["sync"])
+        elif ev == "setdt":
+            acts.append(["setdt", rng.choice([0.5, 2.0, 0.37])])
+        elif ev == "reverse":
+            acts.append(["setdt", -1.0])
+        elif ev == "edit":
+            acts.append(["edit", [rng.normal() * sv * 0.03 for _ in range(3)]])
+        elif ev.startswith("restore_"):
+            acts.append(["restore", ev.split("_")[1]])
+        elif ev in ("switch", "switch_reset"):
+            targets = [c_ for c_ in CFG_NAMES[:5]]
+            if "var" in sp:
+                targets = ["whfast/jacobi"]
+            elif m1 != 0.0 and role != "tp0":
+                targets = list(EXACT_MASSIVE)
+            t_ = rng.choice(targets)
+            i2, c2 = (t_.split("/") + ["-"])[:2] if "/" in t_ else (t_, "-")
+            v2 = "plain" if "var" not in sp else rng.choice(["plain", "corrector"])
+            if "var" not in sp and i2 == "whfast" and c2 in ("jacobi", "bary") and rng.chance(0.4):
+                v2 = "corrector"
+            o2 = options(i2, c2, v2, "safe1" if sp.get("callbacks") or rng.chance(0.5) else "safe0")
+            acts.append(["switch", i2, c2, ev == "switch_reset", o2])
+            integ, coord = i2, c2
+        elif ev == "exact_finish_output":
+            acts.append(["integrate", rng.uniform(0.2, 0.9), 1])       # an output call that shortens the last step
+    segment()
+    event(fv["ev1"])
+    if fv["ev1"] != "none" and fv["ev2"] != "none":
+        acts.append(["steps", 1])                                       # ev2 hits the step right after ev1's
+    event(fv["ev2"])
+    segment()
+    for f in FNAMES:
+        tags.add(f + "=" + fv[f])
     return sp, tags, GM, o, offk
 
 
@@ -1354,11 +1513,31 @@ def run_(c):
                           "not_covered": "WHFast512 (needs AVX512, not compiled here)"}
 
     # ---------------------------------------------------------------- histories: options x time x callbacks x restores x edits
-    nseq = 2800 if c.thorough else 280
+    rows, pairs_total, pairs_excluded, pairs_infeasible = covering_array()
+    reps = 6 if c.thorough else 2                    # thorough: the array six times with fresh random fills
+    order = list(range(len(rows)))
+    if not c.thorough and len(rows) > 320:           # quick: a seed-rotated slice
+        k0 = (c.seed * 320) % len(rows)
+        order = [(k0 + q) % len(rows) for q in range(320)]
     specs = []
-    for i in range(nseq):
-        rng = c.rng.fork()
-        specs.append(gen_sequence(rng, i))
+    for rep_ in range(reps):
+        for q in order:
+            rng = c.rng.fork()
+            specs.append(build_history(rng, rows[q]))
+    if c.thorough:                                   # 3-way: full factorial of the factors closest to the solver
+        for cfg_ in CFG_NAMES:
+            for ds_ in FACTORS["dtsign"]:
+                for ob_ in FACTORS["orbit"]:
+                    for sl_ in FACTORS["steplen"]:
+                        for pt_ in FACTORS["pattern"]:
+                            rng = c.rng.fork()
+                            for _ in range(30):
+                                fv = {f: rng.choice(FACTORS[f]) for f in FNAMES}
+                                fv.update(cfg=cfg_, dtsign=ds_, orbit=ob_, steplen=sl_, pattern=pt_)
+                                if case_valid(fv):
+                                    specs.append(build_history(rng, fv))
+                                    break
+    c.cov["pairs_array_rows"] = len(rows)
     # star + many type-0 test particles (allocation boundaries 128 / 1024)
     for K, (integ, coord) in ([(1100, ("whfast", "dh")), (130, ("whfast", "jacobi")), (130, ("mercurius", "-")), (1030, ("saba", "-"))] if c.thorough
                               else [(130, ("whfast", "jacobi")), (130, ("mercurius", "-"))]):
@@ -1378,6 +1557,7 @@ def run_(c):
     qro = real.run(["seq %d %s" % (i, json.dumps(sp[0])) for i, sp in enumerate(specs)])
     qol, qmeta = [], {}
     dims = {}
+    pairs_seen = set()
     seq_fail = 0
     for i, (sp, tags, GM, o, offk) in enumerate(specs):
         ans = qro.get(str(i), "")
@@ -1391,8 +1571,13 @@ def run_(c):
         R = json.loads(ans[2:])
         if R["mode"] != 0:
             continue                       # a TRACE pericentre switch / encounter fired somewhere: not the Kepler path
-        for tg in tags | {"integrator:" + cfg, "option:G_not_1"}:
+        for tg in tags | {"option:G_not_1"}:
             dims[tg] = dims.get(tg, 0) + 1
+        fv_ = sp.get("factors")
+        if fv_:
+            for a_i, f_ in enumerate(FNAMES):
+                for g_ in FNAMES[a_i + 1:]:
+                    pairs_seen.add((f_, fv_[f_], g_, fv_[g_]))
         c.count(("seq", cfg, tuple(sorted(tags))))
         cps = R["cps"]
         start = [b[1] for b in sp["bodies"]]
@@ -1477,26 +1662,265 @@ def run_(c):
     for k, v in c.cov["full_step"]["cases_per_configuration"].items():
         r_ = "full_step_role:" + k.split(":")[1] + ":" + k.split(":")[2]
         dims[r_] = dims.get(r_, 0) + v
-    required = ["option:safe_mode_0", "option:keep_unsynchronized", "option:corrector", "option:corrector2", "option:kernel_nondefault",
-                "option:saba_type", "option:mercurius_rcrit_L", "option:trace_rcrit", "option:G_not_1",
-                "time:dt_negative", "time:hyperbolic_dt_negative", "time:step_longer_than_period", "time:direction_reversal",
-                "time:dt_changed_between_calls", "time:integrate_split_in_calls", "time:integrate_exact_finish_0",
-                "time:integrate_exact_finish_1", "time:integrate_exact_finish_omitted", "time:huge_t_over_dt", "time:several_steps",
-                "callbacks:heartbeat_pre_post_additional_forces", "history:restore_archive", "history:restore_copy", "history:restore_pickle",
-                "history:explicit_synchronize", "history:integrator_switch", "history:user_edit_between_steps",
-                "variational:nonzero_variation_riding_along", "geometry:com_offset_and_boost", "geometry:hyperbolic",
-                "role:tp0:massive", "role:tp0:massless", "role:tp1:massive", "role:tp1:massless", "role:active:massive", "role:active:massless",
-                "scale:N_>128_test_particles", "solver_tie:elliptic_bisection_dt_negative", "solver_tie:hyperbolic_dt_negative",
-                "solver_tie:variational_particle_nonzero", "kepler_step_tie:N_active_lt_N", "jump_step_tie:testparticle_type_1"] + \
-               ["integrator:" + (a + ("/" + b if b != "-" else "")) for a, b in SEQ_CONFIGS]
+    required = [f + "=" + v for f in FNAMES for v in FACTORS[f]] + \
+               ["option:G_not_1", "scale:N_>128_test_particles", "solver_tie:elliptic_bisection_dt_negative", "solver_tie:hyperbolic_dt_negative",
+                "solver_tie:variational_particle_nonzero", "kepler_step_tie:N_active_lt_N", "jump_step_tie:testparticle_type_1"]
     if c.thorough:
         required.append("scale:N_>1024_test_particles")
     for k in required:
         dims.setdefault(k, 0)
+    # pairwise coverage of the history factors: pairs of evaluated cases against the pairs that are not excluded
+    need_pairs = set()
+    for a_i, f_ in enumerate(FNAMES):
+        for g_ in FNAMES[a_i + 1:]:
+            for va in FACTORS[f_]:
+                for vb in FACTORS[g_]:
+                    if not pair_forbidden(f_, va, g_, vb) and (f_, va, g_, vb) not in pairs_infeasible:
+                        need_pairs.add((f_, va, g_, vb))
+    missing_pairs = sorted(need_pairs - pairs_seen)
+    reasons = {}
+    for v in pairs_excluded.values():
+        reasons[v] = reasons.get(v, 0) + 1
+    c.cov["pairs"] = {"covered": len(need_pairs & pairs_seen), "total": len(need_pairs), "excluded": len(pairs_excluded) + len(pairs_infeasible),
+                      "factors": {f: len(FACTORS[f]) for f in FNAMES}, "array_rows": len(rows), "repetitions": reps,
+                      "excluded_reasons": reasons, "missing": [list(m) for m in missing_pairs[:20]],
+                      "three_way": "cfg x dtsign x orbit x steplen x pattern full factorial (valid cells) in the thorough tier"}
+    if c.thorough and missing_pairs:
+        c.broken.append("proof obligation: pairwise coverage of the history factors incomplete: %d of %d pairs evaluated, e.g. %s"
+                        % (len(need_pairs & pairs_seen), len(need_pairs), missing_pairs[:3]))
     c.cov["dimensions"] = dict(sorted(dims.items()))
     for k in required:
         if dims[k] == 0:
             c.broken.append("proof obligation: dimension %s not covered by this run" % k)
+
+    # ---------------------------------------------------------------- entry points (extracted from the sources of this run)
+    import re as _re
+    callers = {}
+    KEP = r"\b(reb_whfast_kepler_solver|reb_whfast_kepler_step|reb_integrator_mercurius_kepler_step|reb_integrator_trace_whfast_step|reb_integrator_trace_kepler_step|reb_whfast512_kepler_step)\s*\("
+    for fn_ in ("integrator_whfast.c", "integrator_saba.c", "integrator_mercurius.c", "integrator_trace.c", "integrator_whfast512.c"):
+        src_ = open(os.path.join(REPO, "src", fn_)).read()
+        starts = [(m.start(), m.group(1)) for m in _re.finditer(r"^(?:static\s+)?(?:inline\s+)?(?:void|int|double|unsigned int)\s+(\w+)\s*\([^;{]*\)\s*\{", src_, flags=_re.M)]
+        for m in _re.finditer(KEP, src_):
+            enc = [n for p_, n in starts if p_ < m.start()]
+            if enc and enc[-1] != m.group(1):
+                callers.setdefault(enc[-1], set()).add(m.group(1))
+    hdr = open(os.path.join(REPO, "src", "rebound.h")).read()
+    exported = set(_re.findall(r"DLLEXPORT\s+[\w\s\*]+?\b(reb_simulation_step|reb_simulation_steps|reb_simulation_integrate|reb_simulation_synchronize|reb_whfast_kepler_step)\s*\(", hdr))
+    pysrc = open(os.path.join(REPO, "rebound", "simulation.py")).read()
+    setter = pysrc[pysrc.index("def integrator(self, value):"):]
+    setter = setter[:setter.index("@property")]
+    spellings = set(_re.findall(r'value\s*==\s*"(\w+)"', setter))
+    sabasrc = open(os.path.join(REPO, "rebound", "integrators", "saba.py")).read()
+    saba_types = _re.findall(r'"([\w,]+)"\s*:\s*0x', sabasrc)
+    spellings |= {"saba" + t_ for t_ in saba_types} | {"whfast", "saba", "mercurius", "trace", "WHFast", "SABA(10,6,4)", "Mercurius", "TRACE"}
+    # how each caller is reached: counts come from this run's evaluated cases
+    corr_n = sum(v for k, v in dims.items() if k == "variant=corrector")
+    reach = {
+        "reb_whfast_kepler_step": c.cov["kepler_step_calls_compared"]["total"],
+        "reb_integrator_mercurius_kepler_step": c.cov["hybrid_kepler_step_calls_compared"]["total"],
+        "reb_integrator_trace_whfast_step": c.cov["hybrid_kepler_step_calls_compared"]["total"],
+        "reb_whfast_corrector_Z": dims.get("variant=corrector", 0),
+        "reb_whfast_operator_C": dims.get("variant=kernel_corrector2", 0),
+        "reb_whfast_operator_U": dims.get("variant=kernel_corrector2", 0),
+        "reb_whfast_operator_Uinv": dims.get("variant=kernel_corrector2", 0),
+        "reb_integrator_whfast_part1": sum(v for k, v in dims.items() if k.startswith("cfg=whfast")),
+        "reb_integrator_whfast_part2": sum(v for k, v in dims.items() if k.startswith("cfg=whfast")),
+        "reb_integrator_whfast_synchronize": dims.get("safe=safe0", 0) + dims.get("safe=safe1", 0),
+        "reb_integrator_saba_part1": dims.get("cfg=saba", 0), "reb_integrator_saba_part2": dims.get("cfg=saba", 0),
+        "reb_integrator_saba_synchronize": dims.get("cfg=saba", 0),
+        "reb_integrator_mercurius_part2": dims.get("cfg=mercurius", 0),
+        "reb_integrator_trace_kepler_step": dims.get("cfg=trace", 0), "reb_integrator_trace_step": dims.get("cfg=trace", 0),
+    }
+    # smoke + oracle: every Python spelling, the debug operator, each exported C routine
+    esp, emeta = [], []
+    for sp_name in sorted(spellings):
+        rng = c.rng.fork()
+        o = gen_orbit(rng, e=rng.uniform(0, 0.5), dt_over_P=10 ** rng.uniform(-3, -2), M=None)
+        esp.append({"G": o["G"], "m0": o["m"], "bodies": [[0.0, o["st"]]], "off": [0.0] * 6, "dt": abs(o["dt"]) , "integ": "spelling", "coord": "-",
+                    "nactive": -1, "tpt": 0, "opts": {}, "spelling": sp_name, "actions": [["steps", 2]]})
+        emeta.append(("python:sim.integrator='%s'" % sp_name, o["G"] * o["m"], o))
+    for coord_ in COORDS:
+        rng = c.rng.fork()
+        o = gen_orbit(rng, e=rng.uniform(0, 0.8), dt_over_P=10 ** rng.uniform(-2, 0))
+        esp.append({"G": o["G"], "m0": o["m"], "bodies": [[0.0, o["st"]]], "off": [0.0] * 6, "dt": o["dt"], "integ": "whfast", "coord": coord_,
+                    "nactive": -1, "tpt": 0, "opts": {}, "debug_operator_kepler": 1, "actions": [["debug_kepler", 1.0], ["debug_kepler", -0.25]]})
+        emeta.append(("reb_integrator_whfast_debug_operator_kepler/" + coord_, o["G"] * o["m"], o))
+    ero = real.run(["seq e%d %s" % (i, json.dumps(sp_)) for i, sp_ in enumerate(esp)])
+    eol = []
+    for i, (name_, GM_, o_) in enumerate(emeta):
+        a_ = ero.get("e%d" % i, "")
+        if a_.startswith("J "):
+            cp_ = json.loads(a_[2:])["cps"][-1]
+            eol.append("e%d %s %s" % (i, " ".join(d2h(v) for v in [GM_] + o_["st"] + [cp_["el"]]), " ".join(d2h(v) for v in cp_["rel"][0])))
+    eref = run_oracle(eol)
+    entry_ok = {}
+    for i, (name_, GM_, o_) in enumerate(emeta):
+        a_ = ero.get("e%d" % i, "")
+        j = eref.get("e%d" % i)
+        c.count(("entry", name_))
+        if "whfast512" in name_:
+            continue                      # handled by the AVX512 section below
+        if j is None or not a_.startswith("J "):
+            c.violation("entry-point-fails:" + name_, "public entry point %s on a two-body system: %s" % (name_, a_[:150]), {"spec": esp[i]})
+            continue
+        err_ = max(j["errx"], j["errv"]) if j.get("finite") else float("inf")
+        e__ = j["e"]
+        J_ = (4.0 / abs(1.0 - e__)) * j["ndt"] * max(1.0, j["amp_x"], j["amp_v"])
+        if not err_ <= tolerance(j) * (1 + J_) * SAFETY * 16:
+            c.violation("entry-point-inexact:" + name_, "public entry point %s leaves the exact Kepler orbit by %.3g relative" % (name_, err_), {"spec": esp[i], "err": err_})
+        entry_ok[name_] = 1
+    reach["reb_integrator_whfast_debug_operator_kepler"] = sum(1 for k in entry_ok if k.startswith("reb_integrator_whfast_debug_operator_kepler"))
+    reach_exported = {"reb_simulation_step": c.cov["full_step"]["cases"], "reb_simulation_steps": dims.get("pattern=steps", 0),
+                      "reb_simulation_integrate": sum(v for k, v in dims.items() if k.startswith("pattern=integrate")),
+                      "reb_simulation_synchronize": c.cov["histories"]["cases"], "reb_whfast_kepler_step": c.cov["kepler_step_calls_compared"]["total"]}
+
+    # ---------------------------------------------------------------- WHFast512 (integrator_whfast512.c: own vectorised Kepler solver)
+    have512 = "avx512f" in open("/proc/cpuinfo").read()
+    w512 = {"available": have512}
+    if have512:
+        import common as _common
+        oldflags = _common.CFLAGS[:]
+        _common.CFLAGS += ["-march=native", "-DAVX512"]
+        try:
+            d512 = build()
+        finally:
+            _common.CFLAGS[:] = oldflags
+        real512 = Real(d512)
+        n512 = 400 if c.thorough else 60
+        wspecs = []
+        for k in range(n512):
+            rng = c.rng.fork()
+            K = rng.randint(1, 8)
+            m0 = 10 ** rng.uniform(-3, 3)
+            outside = (k % 10 == 9)             # a tenth of the cases outside the convergence domain of its fixed-iteration solver
+            bodies, orbs = [], []
+            dt = None
+            for q in range(K):
+                for _ in range(200):
+                    e = rng.choice([0.0, rng.uniform(0, 0.9), 1 - 10 ** rng.uniform(-3, -1), 1 + 10 ** rng.uniform(-2, 1)])
+                    if dt is None:
+                        dtp = 10 ** rng.uniform(-5, 0.5)
+                        a_ = 10 ** rng.uniform(-2, 2)
+                    else:
+                        a_ = 10 ** rng.uniform(-2, 2)
+                        dtp = dt / (2 * math.pi * math.sqrt(a_ ** 3 / m0))
+                    xres = 2 * math.pi * dtp * abs(1 - e) ** -1.5
+                    if (xres > 3.0) if (outside and q == 0) else (xres < 0.4):
+                        break
+                else:
+                    continue
+                o = gen_orbit(rng, e=e, dt_over_P=dtp, M=m0, a=a_)
+                if dt is None:
+                    dt = o["dt"]
+                bodies.append([0.0, o["st"]]); orbs.append(o)
+            wspecs.append(({"G": 1.0, "m0": m0, "bodies": bodies, "off": [0.0] * 6, "dt": dt, "integ": "whfast512", "coord": "-", "nactive": -1, "tpt": 0,
+                            "opts": {}, "actions": [["steps", rng.randint(1, 3)]] if k % 3 else [["integrate", rng.uniform(0.5, 3.5), 0]]}, m0, orbs, outside))
+        wro = real512.run(["seq w%d %s" % (i, json.dumps(w[0])) for i, w in enumerate(wspecs)])
+        wol, wmeta = [], {}
+        for i, (sp_, GM_, orbs, outside) in enumerate(wspecs):
+            a_ = wro.get("w%d" % i, "")
+            c.count(("whfast512", len(sp_["bodies"]), outside, sp_["actions"][0][0]))
+            if not a_.startswith("J "):
+                c.violation("whfast512-%s" % (a_.split()[0].lower() if a_ else "noanswer"), "WHFast512 on a star + %d massless planets: %s" % (len(orbs), a_[:150]), {"spec": sp_})
+                continue
+            cp_ = json.loads(a_[2:])["cps"][-1]
+            for b_, o_ in enumerate(orbs):
+                cid = "w%d_%d" % (i, b_)
+                wol.append("%s %s %s" % (cid, " ".join(d2h(v) for v in [GM_] + o_["st"] + [cp_["el"]]), " ".join(d2h(v) for v in cp_["rel"][b_])))
+                wmeta[cid] = (i, b_)
+        wref = run_oracle(wol)
+        wworst, nin, nout, nout_bad = 0.0, 0, 0, 0
+        for cid, (i, b_) in wmeta.items():
+            sp_, GM_, orbs, outside = wspecs[i]
+            j = wref[cid]
+            o_ = orbs[b_]
+            xres = 2 * math.pi * abs(o_["meta"]["dtP"]) * abs(1 - o_["meta"]["e"]) ** -1.5
+            rep = {"spec": {k_: v_ for k_, v_ in sp_.items()}, "body": b_, "e": o_["meta"]["e"], "dt_over_P": o_["meta"]["dtP"], "x": xres}
+            err_ = max(j["errx"], j["errv"]) if j.get("finite") else float("inf")
+            J_ = (4.0 / abs(1.0 - j["e"])) * j["ndt"] * max(1.0, j["amp_x"], j["amp_v"])
+            unit = tolerance(j) * (1 + J_)
+            if xres > 2.0:
+                nout += 1
+                if not err_ <= unit * SAFETY * 16:
+                    nout_bad += 1
+                    c.violation("FC03b:whfast512-solver-does-not-converge",
+                                "WHFast512: step that does not resolve the pericentre passage (2 pi dt/P (1-e)^-1.5 = %.3g): %s" % (xres, "non-finite coordinates" if err_ == float("inf") else "error %.3g" % err_), rep)
+                continue
+            if xres > 0.5:
+                continue
+            if any(2 * math.pi * abs(oo["meta"]["dtP"]) * abs(1 - oo["meta"]["e"]) ** -1.5 > 0.5 for oo in orbs):
+                continue          # a sibling lane left the convergence domain (FC03b): its NaN reaches every planet through the interaction step
+            nin += 1
+            wworst = max(wworst, err_ / unit)
+            if not err_ <= unit * SAFETY * 16:
+                rep.update(err=err_, allowed=unit * SAFETY * 16)
+                c.violation("whfast512-inexact", "WHFast512 step (e=%.6g, dt/P=%.3g, resolved pericentre) leaves the exact Kepler orbit by %.3g relative" % (o_["meta"]["e"], o_["meta"]["dtP"], err_), rep)
+        # tie: the Lean model of the vectorised Kepler step (lean/RV/Model/Kepler512.lean, one lane, fused operations
+        # as two roundings) composed as the step does it: kepler(dt/2), kepler(dt) x (n-1), kepler(dt/2)
+        tie_items = []
+        for cid, (i, b_) in wmeta.items():
+            sp_, GM_, orbs, outside = wspecs[i]
+            o_ = orbs[b_]
+            xres = 2 * math.pi * abs(o_["meta"]["dtP"]) * abs(1 - o_["meta"]["e"]) ** -1.5
+            if sp_["actions"][0][0] == "steps" and xres <= 0.5 and not outside:
+                n_ = sp_["actions"][0][1]
+                tie_items.append([cid, GM_, list(o_["st"]), [sp_["dt"] / 2.0] + [sp_["dt"]] * (n_ - 1) + [sp_["dt"] / 2.0]])
+        rounds = max([len(t_[3]) for t_ in tie_items] + [0])
+        for rd in range(rounds):
+            act = [t_ for t_ in tie_items if rd < len(t_[3])]
+            outl = run_driver(exe, ["solve512 " + " ".join(d2h(v) for v in [t_[1]] + t_[2] + [t_[3][rd]]) for t_ in act])
+            for t_, l_ in zip(act, outl):
+                t_[2] = [h2d(x) for x in l_.split()[:6]]
+        tie512_n, tie512_bad, tie512_worst, tie512_first = 0, 0, 0.0, None
+        for cid, GM_, st_, _sched in tie_items:
+            i, b_ = wmeta[cid]
+            cp_ = json.loads(wro["w%d" % i][2:])["cps"][-1]
+            j = wref[cid]
+            if not j.get("finite"):
+                continue
+            J_ = (4.0 / abs(1.0 - j["e"])) * j["ndt"] * max(1.0, j["amp_x"], j["amp_v"])
+            unit = tolerance(j) * (1 + J_)
+            dd = reldiff([d2h(v) for v in cp_["rel"][b_]], [d2h(v) for v in st_], j["ref"])
+            tie512_n += 1
+            tie512_worst = max(tie512_worst, dd / unit)
+            if not dd <= SAFETY * unit:
+                tie512_bad += 1
+                if tie512_first is None:
+                    tie512_first = {"spec": wspecs[i][0], "body": b_, "model": st_, "impl": cp_["rel"][b_], "difference": dd, "allowed": SAFETY * unit}
+        w512["model_tie"] = {"lanes_compared": tie512_n, "worst_difference_over_unit": tie512_worst, "allowed": SAFETY, "disagreements": tie512_bad,
+                             "note": "not bit-identical by construction: the compiled code rounds its fused multiply-adds once, the model twice"}
+        if tie512_bad:
+            c.corr_break("%d of %d WHFast512 lanes differ from the Lean model of reb_whfast512_kepler_step by more than %g conditioned rounding units" % (tie512_bad, tie512_n, SAFETY), tie512_first)
+        if tie512_n == 0:
+            c.broken.append("correspondence: no WHFast512 lane was compared with the model in this run")
+        w512.update(cases=len(wspecs), bodies_checked_in_domain=nin, worst_error_over_unit=wworst, allowed=SAFETY * 16,
+                    bodies_outside_convergence_domain=nout, of_which_wrong=nout_bad)
+        reach["reb_integrator_whfast512_part1"] = nin
+        reach["reb_integrator_whfast512_synchronize"] = nin
+        reach["democraticheliocentric_to_inertial_posvel"] = nin
+        dims["integrator:whfast512"] = nin
+        if nin == 0:
+            c.broken.append("proof obligation: dimension integrator:whfast512 not covered by this run")
+    else:
+        c.assumptions.append("this machine has no AVX512: integrator_whfast512.c (anchored) is not covered by this run")
+    c.cov["whfast512"] = w512
+    unreached = sorted(k for k in callers if reach.get(k, 0) == 0 and not (k.startswith("reb_integrator_whfast512") or k == "democraticheliocentric_to_inertial_posvel") or (have512 and reach.get(k, 0) == 0 and k != "reb_integrator_whfast512_synchronize_fallback"))
+    unreached = sorted(set(k for k in callers if reach.get(k, 0) == 0 and k != "reb_integrator_whfast512_synchronize_fallback"
+                           and (have512 or not (k.startswith("reb_integrator_whfast512") or k == "democraticheliocentric_to_inertial_posvel"))))
+    c.cov["entry_points"] = {"callers_of_the_kepler_routines_extracted": {k: sorted(v) for k, v in sorted(callers.items())},
+                             "reached_by_cases": {k: reach.get(k, 0) for k in sorted(callers)},
+                             "exported_c": {k: reach_exported.get(k, 0) for k in sorted(exported)},
+                             "python_spellings": len(spellings), "python_spellings_exact": sum(1 for k in entry_ok if k.startswith("python:")),
+                             "not_exercised": unreached,
+                             "note": "reb_integrator_whfast512_synchronize_fallback (scalar solver on a copy) is reached only when WHFast512 synchronises a simulation loaded without its internal state"}
+    if len(callers) < 16 or len(exported) < 5 or len(spellings) < 20:
+        c.broken.append("proof obligation: entry-point extraction found %d callers / %d exported / %d spellings (expected >= 16 / 5 / 20)" % (len(callers), len(exported), len(spellings)))
+    if unreached:
+        c.broken.append("proof obligation: callers of the Kepler routines not exercised by this run: " + ", ".join(unreached))
+    for k in sorted(exported):
+        if reach_exported.get(k, 0) == 0:
+            c.broken.append("proof obligation: exported entry point %s not exercised by this run" % k)
+    c.cov["dimensions"] = dict(sorted(dims.items()))
     c.cov["watchdog"] = {"hangs": real.hangs + real_h.hangs, "worker_restarts": real.restarts + real_h.restarts}
 
 
